@@ -11,6 +11,7 @@ Oracle (model-independent): the statement's first-obtained rule evaluated by `re
 config (real sha1, Python's fnmatch as the trusted matcher), for configs whose blocks are Host blocks or
 pass-invariant Match blocks (all / originalhost / localuser / canonical); get_hostnames for every config.
 """
+import copy
 import fnmatch as _fnmatch
 import hashlib
 
@@ -293,13 +294,16 @@ def run(ctx):
     import socket as real_socket
     import paramiko.config as pc
     from paramiko.config import SSHConfig
-    from paramiko.ssh_exception import ConfigParseError
+    from paramiko.ssh_exception import ConfigParseError, CouldNotCanonicalize
 
     ctx.rule = ("structured configs of 0..12 Host/Match blocks (lowercase literal, wildcard * ? and negated patterns; "
                 "Match all / originalhost / localuser / canonical / host / user / final with negations and pattern "
                 "lists), 0..6 option lines per block with repeated keys, IdentityFile/LocalForward lists, ProxyCommand "
                 "none, quoted values, %-tokens and ~ in HostName/IdentityFile/ProxyCommand/ProxyJump/ControlPath, "
-                "random key case and separators; 3 random hostnames per config. distinct = distinct (config, hostname); "
+                "random key case and separators; 3 random hostnames per config looked up on ONE parsed object, 7 lookups "
+                "when a block makes lookup() raise for one host (CanonicalizeMaxDots not a number, CanonicalizeHostname "
+                "without CanonicalDomains), each compared with a freshly parsed object and with the object's attributes "
+                "before the call. distinct = distinct (config, hostname); "
                 "non-trivial = at least two blocks apply to the hostname")
     ctx.trust("re (SETTINGS_REGEX), shlex.split, str.lower/strip/replace of CPython; fnmatch is modelled for literal "
               "characters, * and ? and validated against fnmatch.fnmatch on random pairs every run",
@@ -340,12 +344,12 @@ def run(ctx):
     saved = (pc.getpass, pc.socket, pc.os, pc.sha1)
     pc.getpass, pc.socket, pc.os = FakeGetpass, FakeSocket, FakeOS
     try:
-        _run(ctx, rng, pc, SSHConfig, ConfigParseError)
+        _run(ctx, rng, pc, SSHConfig, ConfigParseError, CouldNotCanonicalize)
     finally:
         pc.getpass, pc.socket, pc.os, pc.sha1 = saved
 
 
-def _run(ctx, rng, pc, SSHConfig, ConfigParseError):
+def _run(ctx, rng, pc, SSHConfig, ConfigParseError, CouldNotCanonicalize):
     real_sha1 = hashlib.sha1
     env = " ".join(hx(s.encode()) for s in (LU, LHOST, FQDN, HOME))
     n_cfg = 6000 if ctx.thorough else 1300
@@ -379,8 +383,21 @@ def _run(ctx, rng, pc, SSHConfig, ConfigParseError):
             lines = [("H", ["a"]), ("K", "ProxyCommand", "ssh -W %h:%p gw"), ("K", "ProxyCommand", "none"),
                      ("M", ["all"]), ("K", "User", "u")]
             static = True
+        raising_host = None
+        if i % 6 == 3:       # a block whose options make lookup() raise, for one host (or for every host)
+            raising_host = rng.choice(HOSTS)
+            bad = rng.choice([[("K", "CanonicalizeMaxDots", "abc")],
+                              [("K", "CanonicalizeHostname", "yes"), ("K", "CanonicalizeMaxDots", "9")],
+                              [("K", "canonicalizehostname", "always"), ("K", "CanonicalizeMaxDots", "9"),
+                               ("K", "CanonicalizeFallbackLocal", "no")]])
+            blk = [("H", [raising_host if rng.random() < 0.85 else "*"])] + bad
+            bounds = [j for j, ln in enumerate(lines) if ln[0] in "HM"] + [len(lines)]
+            pos = rng.choice(bounds)
+            lines = lines[:pos] + blk + lines[pos:]
         text = render(rng, lines)
         names = [rng.choice(HOSTS) for _ in range(2)] + ["".join(rng.choice("abw1.x-") for _ in range(rng.randrange(1, 6)))]
+        if raising_host is not None:   # ordinary lookups before and after the raising one, on the same object
+            names = [names[0], raising_host, names[0], names[1], raising_host, names[2], names[1]]
         if i == 0:
             names = ["a", "b", "zz"]
         cases.append((lines, static, text, names))
@@ -389,15 +406,17 @@ def _run(ctx, rng, pc, SSHConfig, ConfigParseError):
     for lines, _static, _text, names in cases:
         body = " ".join(line_tok(ln) for ln in lines)
         reqs.append("hostnames " + body)
-        for n in names:
-            reqs.append("lookup %s %s %s" % (env, hx(n.encode()), body))
+        reqs.append("lookups %s %s %s" % (env, ",".join(hx(n.encode()) for n in names), body))
     replies = ctx.driver("C40", reqs)
     ri = 0
     for ci, (lines, static, text, names) in enumerate(cases):
         case0 = {"config_text": text}
         rep_hosts = replies[ri] if replies is not None else None
-        rep_look = replies[ri + 1: ri + 1 + len(names)] if replies is not None else [None] * len(names)
-        ri += 1 + len(names)
+        rep_look = [None] * len(names)
+        if replies is not None:
+            parts = replies[ri + 1].split(" | ")
+            rep_look = parts if len(parts) == len(names) else [replies[ri + 1]] * len(names)
+        ri += 2
         try:
             cfg = SSHConfig.from_text(text)
         except ConfigParseError:
@@ -439,8 +458,36 @@ def _run(ctx, rng, pc, SSHConfig, ConfigParseError):
                 except Exception as e:
                     outs.append(e)
             toy, real = outs
+            # history independence: the same lookup on a freshly parsed object; the object itself unchanged
+            before = copy.deepcopy(vars(cfg))
+            try:
+                again = dict(cfg.lookup(n))
+            except Exception as e:
+                again = e
+            if repr(copy.deepcopy(vars(cfg))) != repr(before) or set(vars(cfg)) != set(before):
+                ctx.fail("lookup-modifies-the-config-object", dict(case, lookups_so_far=names[:names.index(n) + 1]),
+                         "instance attributes before %r, after %r" % ({k: v for k, v in before.items() if k != "_config"},
+                                                                      {k: v for k, v in vars(cfg).items() if k != "_config"}))
+            try:
+                fresh = dict(SSHConfig.from_text(text).lookup(n))
+            except Exception as e:
+                fresh = e
+            for got in (real, again):
+                same = (type(got) is type(fresh)) if isinstance(fresh, Exception) or isinstance(got, Exception) else got == fresh
+                if not same:
+                    ctx.fail("lookup-depends-on-earlier-lookups", dict(case, lookups_on_this_object=names),
+                             "on the shared object: %r; on a freshly parsed one: %r" % (got, fresh))
+                    break
             if isinstance(real, Exception):
-                ctx.fail("lookup-escaped:" + exc_site(real), case, repr(real))
+                expected_raise = isinstance(real, (ValueError, KeyError, CouldNotCanonicalize)) and any(
+                    ln[0] == "K" and ln[1].lower().startswith("canonicalize") for ln in lines)
+                if not expected_raise:
+                    ctx.fail("lookup-escaped:" + exc_site(real), case, repr(real))
+                else:
+                    ctx.dist("lookup:raises (canonicalisation options)")
+                    ctx.case(("lookup", text, n), False)
+                    if rep is not None and rep != "err canon":
+                        ctx.disagree("lookup", case, rep[:300], "raise " + type(real).__name__)
                 continue
             applies = 0
             if static:
@@ -489,7 +536,9 @@ META = {
               "(final) pass visits them; identityfile accumulates over both (lookup_first_obtained_visiting, "
               "lookupPass_eq_applied); Match host is tested against the HostName obtained so far (else the looked-up "
               "name), Match user against the User obtained so far (else the local user), Match final holds in the second "
-              "pass only (match_host_applies, match_user_applies, match_final_applies). Match exec and hostname "
+              "pass only (match_host_applies, match_user_applies, match_final_applies); every answer in a history of "
+              "lookups on one object, raising ones included, is the one-shot answer and the object is unchanged "
+              "(lookupSession_spec). Match exec and hostname "
               "canonicalisation are not modelled."),
     "note": ("Trusted: Lean kernel + 3 standard axioms; re/shlex/str methods of CPython (the model starts from logical "
              "lines; rendering to text with random formatting exercises the real regex/shlex glue); fnmatch is modelled for "
